@@ -1,5 +1,6 @@
 import LJT.Ops.Util
 import LJT.Model.Lossless
+import LJT.Model.LosslessDec
 namespace LJT.Ops
 open LJT.LL LJT.Huff
 
@@ -43,7 +44,17 @@ def opC02 : List String → Option String
     | none => some "modelerr"
     | some (tbls, bytes) =>
       let d := " ".intercalate (tbls.map (fun (t, tb) => s!"dht{t}:{joinNat (tb.bits.drop 1)}:{joinNat tb.vals}"))
-      some s!"{d} scan {bytes.length}:{fnv bytes}"
+      -- the decoder's model on the same bytes, with the decoder-side tables derived from the DHT segments
+      let dec := match tbls.mapM (fun (_, tb) => mkDDerived true true tb) with
+        | none => "none"
+        | some dds =>
+          match llDecode ⟨P, Pt, psv, R⟩ tblOf dds nc h w bytes with
+          | none => "none"
+          | some comps =>
+            let samples := (List.range h).flatMap fun y => (List.range w).flatMap fun x =>
+              comps.flatMap fun (rows : List (List Nat)) => let v := (rows.getD y []).getD x 0; [v % 256, v / 256]
+            s!"{samples.length / 2}:{fnv samples}"
+      some s!"{d} scan {bytes.length}:{fnv bytes} dec {dec}"
   | _ => none
 
 end LJT.Ops
